@@ -146,7 +146,9 @@ theorem operandIsArg_sound (x : Ctx) (hall : ∀ m, m < x.nodes.size → Holds x
   rcases h with h | h
   · exact ⟨matchOperand_plain _ _ _ _ _ _ h, matchOperand_sound x e o a x.nodes.size ha hall h⟩
   · refine ⟨opIs_plain _ _ _ _ _ _ _ h, ?_⟩
-    have hu : (projOf a).under x.nodes.size = true := by simp [projOf, VExpr.under, ha, argBelow]
+    have hu : (projOf a).under x.nodes.size = true := by
+      simp only [projOf, VExpr.under, ha, Bool.true_and]
+      rfl
     rw [opIs_sound x x.nodes.size hall _ (projOf a) e o
       (fun p t hp => entIs_sound x x.nodes.size hall (projOf a) p t hu hp) hu h]
     simp [projOf, VExpr.val, alu, Ctx.av, argVal]
